@@ -10,11 +10,13 @@
 #include <occa/internal/modes/serial/stream.hpp>
 #include <occa/internal/modes/serial/streamTag.hpp>
 #include <occa/internal/lang/modes/serial.hpp>
+#include <occa/internal/utils/verif.hpp>
 
 namespace occa {
   namespace serial {
     device::device(const occa::json &properties_) :
       occa::modeDevice_t(properties_) {
+      OCCA_VERIF_CREATED(kDevice);
       // TODO: Maybe theres something more descriptive we can populate here
       arch = std::string("CPU");
     }
